@@ -45,22 +45,22 @@ type E struct {
 	A   []*E    `json:"a,omitempty"`
 }
 
-func Col(path string) *E          { return &E{K: "col", S: path} }
-func Num(n float64) *E            { return &E{K: "num", N: n} }
-func Str(s string) *E             { return &E{K: "str", S: s} }
-func Bool(b bool) *E              { return &E{K: "bool", B: b} }
-func Null() *E                    { return &E{K: "null"} }
-func Bin(op string, a, b *E) *E   { return &E{K: "bin", Op: op, A: []*E{a, b}} }
-func Cmp(op string, a, b *E) *E   { return &E{K: "cmp", Op: op, A: []*E{a, b}} }
-func And(a, b *E) *E              { return &E{K: "and", A: []*E{a, b}} }
-func Or(a, b *E) *E               { return &E{K: "or", A: []*E{a, b}} }
-func Not(a *E) *E                 { return &E{K: "not", A: []*E{a}} }
-func Par(a *E) *E                 { return &E{K: "par", A: []*E{a}} }
-func Neg(a *E) *E                 { return &E{K: "neg", A: []*E{a}} }
-func Tilde(a *E) *E               { return &E{K: "tilde", A: []*E{a}} }
-func Bang(a *E) *E                { return &E{K: "bang", A: []*E{a}} }
-func Is(op string, a *E) *E       { return &E{K: "is", Op: op, A: []*E{a}} }
-func Raw(s string) *E             { return &E{K: "raw", S: s} }
+func Col(path string) *E           { return &E{K: "col", S: path} }
+func Num(n float64) *E             { return &E{K: "num", N: n} }
+func Str(s string) *E              { return &E{K: "str", S: s} }
+func Bool(b bool) *E               { return &E{K: "bool", B: b} }
+func Null() *E                     { return &E{K: "null"} }
+func Bin(op string, a, b *E) *E    { return &E{K: "bin", Op: op, A: []*E{a, b}} }
+func Cmp(op string, a, b *E) *E    { return &E{K: "cmp", Op: op, A: []*E{a, b}} }
+func And(a, b *E) *E               { return &E{K: "and", A: []*E{a, b}} }
+func Or(a, b *E) *E                { return &E{K: "or", A: []*E{a, b}} }
+func Not(a *E) *E                  { return &E{K: "not", A: []*E{a}} }
+func Par(a *E) *E                  { return &E{K: "par", A: []*E{a}} }
+func Neg(a *E) *E                  { return &E{K: "neg", A: []*E{a}} }
+func Tilde(a *E) *E                { return &E{K: "tilde", A: []*E{a}} }
+func Bang(a *E) *E                 { return &E{K: "bang", A: []*E{a}} }
+func Is(op string, a *E) *E        { return &E{K: "is", Op: op, A: []*E{a}} }
+func Raw(s string) *E              { return &E{K: "raw", S: s} }
 func Call(name string, a ...*E) *E { return &E{K: "call", S: name, A: a} }
 func QCall(q, name string, a ...*E) *E {
 	return &E{K: "call", S: name, Op: q, A: a}
@@ -258,7 +258,9 @@ func Render(e *E, st *Style) string {
 	case "bin":
 		return "(" + Render(e.A[0], st) + " " + e.Op + " " + Render(e.A[1], st) + ")"
 	case "cmp":
-		return "(" + Render(e.A[0], st) + " " + e.Op + " " + Render(e.A[1], st) + ")"
+		// "=?" is an equality that is only used as the direct condition of a CASE WHEN or as a WHERE conjunct:
+		// with a NULL operand it is not true (false and NULL are the same there); it is written "="
+		return "(" + Render(e.A[0], st) + " " + strings.TrimSuffix(e.Op, "?") + " " + Render(e.A[1], st) + ")"
 	case "and":
 		return "(" + Render(e.A[0], st) + " AND " + Render(e.A[1], st) + ")"
 	case "or":
@@ -610,10 +612,19 @@ func Eval(e *E, row map[string]any, env *Env) (any, error) {
 		if err != nil {
 			return nil, err
 		}
+		if (l == nil || r == nil) && e.Op == "=?" {
+			return false, nil
+		}
 		if l == nil || r == nil {
 			return nil, unspec("NULL in comparison")
 		}
 		switch e.Op {
+		case "=?":
+			eq, ok := ScalarEq(l, r)
+			if !ok {
+				return nil, unspec("comparison of %T with %T", l, r)
+			}
+			return eq, nil
 		case "=", "!=", "<>":
 			eq, ok := ScalarEq(l, r)
 			if !ok {
